@@ -9,6 +9,11 @@ NA = {
 PENDING = "not claimed yet: contracts for this property are still being written (DESIGN.md build order)"
 
 CLAIMED = {
+ "C19": dict(
+   text="Deductive: each rule-to-keyword translator (int32, int64, float, double, string, repeated, map, required) is verified against a contract describing the published keywords, and per kind the property is proved as a lemma over those contracts for ALL values: rule satisfied <=> keywords satisfied by the JSON form (bounds incl. exclusive ones, const, in, lengths, item and pair counts, uniqueness, formats). The exclusive-bound defect found by the check (boolean exclusiveMinimum/Maximum) was repaired by a fix: commit; string-encoded 64-bit kinds, bounds beyond 2^53, untagged string scalars and the untranslated rule kinds are known findings. Violations are replayed with an independent JSON-Schema validator on probe values around every bound.",
+   design="4 (C19), appendix E.3",
+   note="Trusted spec transcriptions: buf.validate rule semantics, JSON-Schema 2020-12 keyword subset, renderings of numbers by strconv/fmt denote the printed value, float64(int64) exact up to 2^53. Not attempted: regex equivalence of pattern; excluded ranges (lt < gt).",
+   technique="contract-based deductive verification: functional contracts on the translators, universally quantified rule/schema equivalence lemmas, z3/cvc5 race; differential family replay with python jsonschema"),
  "C02": dict(
    text="Deductive, on the constant request-pipeline template extracted from the working-tree plugin on every run (template constancy is proved structurally, so the extracted instance is every instance): event obligations on the BindingMiddleware closure (exactly one of dispatch/error per request; URL binders run after body decoding so URL values survive the body; dispatch only when every binder and validation returned nil), the per-kind contract of convertStringToFieldValue, content-type dispatch of the body binder. The body-wipes-URL-fields defect found by the check was repaired (fix: commit) after an httptest replay on the emitted server.",
    design="4 (C02), 3",
